@@ -834,6 +834,7 @@ func (fr *Frame) enterLoop(h *ssa.BasicBlock, li *loopInfo, order []*ssa.BasicBl
 	}
 	allocPre := fc.get(entrySt, hAlloc)
 	declared := map[string][]string{}
+	frontier := map[string]string{} // heaps whose declared frame is relative to the function's entry (funcfresh)
 	if fr.contract != nil && !fr.inlined && len(fr.contract.LoopMod[li.ord]) > 0 {
 		for _, m := range fr.contract.LoopMod[li.ord] {
 			env := fr.specEnv(entrySt, fr.pre, h, nil)
@@ -857,9 +858,12 @@ func (fr *Frame) enterLoop(h *ssa.BasicBlock, li *loopInfo, order []*ssa.BasicBl
 				if t.kind == "whole" {
 					continue
 				}
-				if t.kind == "none" {
+				if t.kind == "none" || t.kind == "nonefn" {
 					if _, ok := declared[t.heap]; !ok {
 						declared[t.heap] = []string{}
+					}
+					if t.kind == "nonefn" {
+						frontier[t.heap] = fc.get(fr.pre, hAlloc)
 					}
 					continue
 				}
@@ -869,7 +873,7 @@ func (fr *Frame) enterLoop(h *ssa.BasicBlock, li *loopInfo, order []*ssa.BasicBl
 		if fr.loopCtxs == nil {
 			fr.loopCtxs = map[int]*loopCtx{}
 		}
-		fr.loopCtxs[h.Index] = &loopCtx{li: li, allocPre: allocPre, declared: declared}
+		fr.loopCtxs[h.Index] = &loopCtx{li: li, allocPre: allocPre, declared: declared, frontier: frontier}
 	}
 	for _, v := range names {
 		sort := fc.sortOfVar(v)
@@ -935,14 +939,18 @@ func (fr *Frame) enterLoop(h *ssa.BasicBlock, li *loopInfo, order []*ssa.BasicBl
 		if whole {
 			continue
 		}
-		conds := []string{sApp("isold", "r", allocPre)}
+		ap := allocPre
+		if fa, ok := frontier[v]; ok {
+			ap = fa
+		}
+		conds := []string{sApp("isold", "r", ap)}
 		for _, e := range exc {
 			conds = append(conds, sNot(sEq("r", e)))
 		}
 		if fc.frames == nil {
 			fc.frames = map[string]frameInfo{}
 		}
-		fc.frames[nv] = frameInfo{pre: pre, alloc: allocPre, exc: exc, partial: partial}
+		fc.frames[nv] = frameInfo{pre: pre, alloc: ap, exc: exc, partial: partial}
 		fc.facts = append(fc.facts, Fact{Guard: "true", Term: fmt.Sprintf("(forall ((r Int)) (! (=> %s (= (select %s r) (select %s r))) :pattern ((select %s r))))", sAnd(conds...), nv, pre, nv), Class: "frameq"})
 		for _, row := range sortedKeys(partial) {
 			idxs := partial[row]
@@ -1029,7 +1037,7 @@ func (fr *Frame) exec(b *ssa.BasicBlock, st *State, ins ssa.Instruction) {
 		l := &Loc{Kind: LObj, Base: r, Root: t, Elem: t}
 		fr.zeroInit(st, l)
 		fr.env[x] = Val{S: r, Typ: x.Type(), Loc: l}
-		if activeLogs[fc] == nil {
+		if len(activeLogs[fc]) == 0 {
 			if fc.localRefs == nil {
 				fc.localRefs = map[string]bool{}
 			}
@@ -1107,7 +1115,7 @@ func (fr *Frame) exec(b *ssa.BasicBlock, st *State, ins ssa.Instruction) {
 		fr.wrRow(st, heapMapP(mt), r, "((as const (Array Int Bool)) false)")
 		fr.wrRow(st, heapMapV(mt), r, fmt.Sprintf("((as const (Array Int %s)) %s)", sortOf(m.Elem()), zeroTerm(m.Elem())))
 		fr.env[x] = Val{S: r, Typ: mt}
-		if activeLogs[fc] == nil {
+		if len(activeLogs[fc]) == 0 {
 			if fc.localRefs == nil {
 				fc.localRefs = map[string]bool{}
 			}
@@ -1905,11 +1913,12 @@ type loopCtx struct {
 	li       *loopInfo
 	allocPre string
 	declared map[string][]string
+	frontier map[string]string
 	name     string
 }
 
 func (fr *Frame) checkLoopWrite(heap, row string) {
-	if activeLogs[fr.fc] != nil {
+	if len(activeLogs[fr.fc]) > 0 {
 		return // dry run
 	}
 	b := fr.curBlock
@@ -1922,11 +1931,21 @@ func (fr *Frame) checkLoopWrite(heap, row string) {
 			if !ok {
 				continue
 			}
+			if f.contract != nil && f.contract.LoopAssumeFrame != nil {
+				if why, assumed := f.contract.LoopAssumeFrame[lc.li.ord]; assumed {
+					f.fc.assumptions[fmt.Sprintf("%s: the declared frame of loop %d is assumed, not proved at its writes: %s", f.fc.fnName(), lc.li.ord, why)] = true
+					continue
+				}
+			}
 			if row == "" {
 				f.fc.oblige("loopframe", fmt.Sprintf("loop%d:%s", lc.li.ord, shortHeap(heap)), fr.reach[fr.curBlock.Index], "false", token.NoPos, f.propsList)
 				continue
 			}
-			alts := []string{sNot(sApp("isold", row, lc.allocPre))}
+			ap := lc.allocPre
+			if fa, ok := lc.frontier[heap]; ok {
+				ap = fa
+			}
+			alts := []string{sNot(sApp("isold", row, ap))}
 			for _, r := range rows {
 				alts = append(alts, sEq(row, r))
 			}
